@@ -63,7 +63,11 @@ Honest == [k |-> "honest", who |-> "none", j |-> 0, enc |-> "canon"]
 (* who = "both": small-order R and small-order key, S = 0.                                             *)
 SmallEncs == [j : 0..7, enc : {"canon"}] \cup [j : {0, 4}, enc : {"signbit"}]
         \cup [j : {0, 2, 6}, enc : {"noncanon"}] \cup [j : {0}, enc : {"noncanon-signbit"}]
+(* who = "signer": made by the KEY HOLDER: R' = rB + j*T8 (mixed order, canonical, not small-order),  *)
+(* s = r + h(R', A, M)*a.  It satisfies only the cofactored equation 8sB = 8R' + 8hA; the cofactorless *)
+(* verification the property fixes through crypto/ed25519 rejects it.                                  *)
 CraftSet == {[k |-> "small", who |-> w, j |-> x.j, enc |-> x.enc] : w \in {"key", "R", "both"}, x \in SmallEncs}
+       \cup {[k |-> "mixedR", who |-> "signer", j |-> jj, enc |-> "canon"] : jj \in 1..7}
 
 RSmall(c)     == c.k = "small" /\ c.who \in {"R", "both"}
 KSmall(c)     == c.k = "small" /\ c.who \in {"key", "both"}
@@ -110,13 +114,25 @@ KeyDevs(s)   == IF IsRing(s.scheme) THEN {} ELSE {"other"}
 MsgDevs(s)   == {"extend"} \cup (IF s.ml > 0 THEN {"flip", "trunc"} ELSE {})
 RingDevs(s)  == IF ~IsRing(s.scheme) THEN {}
                 ELSE {"ext", "shrink", "swap-signer"} \cup (IF s.n >= 2 THEN {"perm", "rot", "swap-other"} ELSE {})
-ScopeDevs(s) == IF ~IsRing(s.scheme) THEN {} ELSE IF s.scoped THEN {"other", "drop"} ELSE {"add"}
+ScopeDevs(s) == IF ~IsRing(s.scheme) THEN {} ELSE IF s.scoped THEN {"other", "drop"} ELSE {"add", "add-empty"}
+
+(* Link-scope classes: nil = unlinkable; a NON-NIL scope is linkable whatever its length, the empty  *)
+(* one []byte{} included ("the only significance these scopes have is whether they are equal").     *)
+(* ScopeClass(n, pos): the class a scoped verification behaviour uses -- a function of (n, pos) only, *)
+(* so every seed covers every class.  Linkage behaviours enumerate all three linkable classes.        *)
+LinkClasses == <<"empty", "one", "long">>
+ScopeClass(n, pos, sc) == IF sc THEN LinkClasses[((n + pos) % 3) + 1] ELSE "nil"
 
 ArgSet(s) == [key : {"same"} \cup KeyDevs(s), msg : {"same"} \cup MsgDevs(s),
               ring : {"same"} \cup RingDevs(s), scope : {"same"} \cup ScopeDevs(s)]
 NDev(a) == (IF a.key = "same" THEN 0 ELSE 1) + (IF a.msg = "same" THEN 0 ELSE 1)
          + (IF a.ring = "same" THEN 0 ELSE 1) + (IF a.scope = "same" THEN 0 ELSE 1)
 ArgsSame(a) == NDev(a) = 0
+
+(* Verification is a function of its arguments and writes to none of them: the replayer issues every *)
+(* Verify Calls times on the SAME caller-owned signature / key / message slices (and once more through *)
+(* another entry point): equal verdicts, byte-identical inputs afterwards.                             *)
+Calls == 2
 
 (* ---------------- the verdict relation ---------------- *)
 Verdict(s, e, a) ==
@@ -155,7 +171,7 @@ Sign(sch, n, pos, sc, ml) ==
     /\ sig' = NewSig(sch, n, pos, sc, ml, Honest)
     /\ phase' = "signed"
     /\ hist' = Append(hist, [act |-> "Sign", scheme |-> sch, n |-> n, pos |-> pos, scoped |-> sc, ml |-> ml,
-                             obs |-> SignObs(sch)])
+                             sclass |-> ScopeClass(n, pos, sc), obs |-> SignObs(sch)])
     /\ UNCHANGED <<sig2, ru, out>>
 
 Craft(sch, c, ml) ==
@@ -183,7 +199,7 @@ Verify(e, a) ==
     /\ out' = Verdict(sig, e, a)
     /\ phase' = "verified"
     /\ hist' = Append(hist, [act |-> "Verify", entry |-> e, key |-> a.key, msg |-> a.msg, ring |-> a.ring,
-                             scope |-> a.scope, exp |-> Verdict(sig, e, a)])
+                             scope |-> a.scope, exp |-> Verdict(sig, e, a), calls |-> Calls])
     /\ UNCHANGED <<sig, sig2, ru>>
 
 SignParams(sch) ==
@@ -202,12 +218,12 @@ NextVerify ==
 (* Two linkable ring signatures; the second differs from the first in key, scope, *)
 (* ring (another ring of size n2 holding the key at pos2) and message.             *)
 (* Tags are equal  <=>  same key and same scope.                                    *)
-Sign1(sch, n, pos) ==
+Sign1(sch, n, pos, cls) ==
     /\ phase = "start"
     /\ sig' = NewSig(sch, n, pos, TRUE, RotMl(n, pos), Honest)
     /\ phase' = "signed1"
     /\ hist' = Append(hist, [act |-> "Sign", scheme |-> sch, n |-> n, pos |-> pos, scoped |-> TRUE, ml |-> RotMl(n, pos),
-                             obs |-> "any"])
+                             sclass |-> cls, obs |-> "any"])
     /\ UNCHANGED <<sig2, ru, out>>
 
 TagEq(samekey, samescope) == samekey /\ samescope
@@ -226,7 +242,7 @@ Sign2(n, pos, samekey, samescope, samering, samemsg) ==
 LinkParams == {x \in (1..LinkRing) \X (0..(LinkRing - 1)) : x[2] < x[1]}
 
 NextLink ==
-    \/ (phase = "start" /\ \E sch \in Schemes \cap {"ring", "ring-ed"} : \E x \in LinkParams : Sign1(sch, x[1], x[2]))
+    \/ (phase = "start" /\ \E sch \in Schemes \cap {"ring", "ring-ed"} : \E x \in LinkParams, c \in 1..3 : Sign1(sch, x[1], x[2], LinkClasses[c]))
     \/ (phase = "signed1" /\ \E x \in LinkParams, k, s, r, m \in BOOLEAN : Sign2(x[1], x[2], k, s, r, m))
 
 (* ---------------- one signer object reused across keys and messages ---------------- *)
